@@ -4,7 +4,8 @@ Model of asmjit/support/arenavector.cpp/.h (`ArenaVector_grow_rule`, `ArenaVecto
 `ArenaVector<T>` operations `append/prepend/insert/concat/remove_at/pop/clear/truncate/release/swap/
 index_of/last_index_of/contains`).  The buffer is modelled as raw memory: a `List Nat` of exactly `capacity`
 items; `memcpy/memmove/memset` are bounds-checked (`none` = the C++ would write outside the buffer).
-`last_index_of` follows the REPAIRED code (fixes/C18-4.patch).  Core-only imports.
+`last_index_of` follows the REPAIRED code (fixes/C18-4.patch); the capacity clamp and the 64-bit product in `_release` follow
+fixes/C18-7.patch and C18-9.patch.  Core-only imports.
 -/
 import AsmjitVerif.Model.Arena
 namespace AsmjitVerif.Vector
@@ -41,7 +42,8 @@ def reserveWithByteSize (a : State) (v : Vec) (byteSize itemSize : Nat) : State 
   match allocReusable a byteSize with
   | (a1, none, _) => (a1, v, .oom)
   | (a1, some p, allocated) =>
-    let newCap := (allocated / itemSize) % u32
+    -- repaired (fixes/C18-7.patch): `_capacity = uint32_t(min(allocated_capacity, 0xFFFFFFFF))`
+    let newCap := min (allocated / itemSize) 0xFFFFFFFF
     let a2 := match v.data with
       | some old => freeReusable a1 old (v.cap * itemSize)
       | none => a1
@@ -129,7 +131,7 @@ def truncate (v : Vec) (n : Nat) : Vec := { v with size := min v.size n }
 /-- `release(arena)` -/
 def release (a : State) (v : Vec) (itemSize : Nat) : State × Vec :=
   match v.data with
-  | some p => (freeReusable a p ((v.cap * itemSize) % u32), {})
+  | some p => (freeReusable a p (v.cap * itemSize), {})     -- repaired (fixes/C18-9.patch): 64-bit product
   | none => (a, v)
 
 def items (v : Vec) : List Nat := v.buf.take v.size
